@@ -167,7 +167,7 @@ def _point_syms(I, P, pref, rname):
 def exp_spline(chk, P):
     mod = "atsim.potentials.spline"
     cls = P.cls(mod, "Exp_Spline")
-    site = cls.lookup("_init_spline_coefficients").site()
+    site = cls.site_of("_init_spline_coefficients")
     for scenario in ("positive end values", "shifted (an end value <= 0)"):
         I = F.make_interp(P)
         cap = SolveCapture()
@@ -256,7 +256,7 @@ def exp_spline(chk, P):
 def buck4_spline(chk, P):
     mod = "atsim.potentials.spline"
     cls = P.cls(mod, "Buck4_Spline")
-    site = cls.lookup("_init_spline_coefficients").site()
+    site = cls.site_of("_init_spline_coefficients")
     I = F.make_interp(P)
     cap = SolveCapture()
     numpy_model(I, cap, "u")
